@@ -102,52 +102,96 @@ impl Gen {
         if self.r.chance(3, 5) { s.last().copied() } else { Some(*self.r.pick(&s)) }
     }
 
+    fn child_activity(&mut self) -> String {
+        match self.r.below(10) {
+            0..=4 => {
+                let c = *self.r.pick(&["a", "b"]);
+                // a krill child needs two rounds: entitlements first, then its requests
+                if self.r.chance(1, 2) { self.flips.push(format!("sync {c} ta")); }
+                format!("sync {c} ta")
+            }
+            5 => format!("rollinit {}", self.r.pick(&["a", "b"])),
+            6 => format!("rollactivate {}", self.r.pick(&["a", "b"])),
+            _ => {
+                let child = *self.r.pick(&["a", "b", "a", "b", "zz"]);
+                let kind = if self.r.chance(3, 4) { "issue" } else { "revoke" };
+                let key = if self.nkeys > 0 && self.r.chance(1, 2) { format!("k{}", self.r.below(self.nkeys as u64)) }
+                    else { self.nkeys += 1; format!("k{}", self.nkeys - 1) };
+                let extra = match self.r.below(12) { 0 => " cls=other", 1 => " lim=1", 2 => " lim=9", _ => "" };
+                format!("tareq {child} {kind} {key}{extra}")
+            }
+        }
+    }
+
+    /// An altered copy of a message, and what to do with it next.
+    fn adversarial(&mut self, w: &World, second: bool) -> Option<String> {
+        let req = self.r.chance(2, 5);
+        let s = self.pick_slot(w, req)?;
+        let who = *self.r.pick(&["proxyA", "signerA", "rnd", "proxyB", "signerB"]);
+        let who = if !second && who.ends_with('B') { "rnd" } else { who };
+        let how = match self.r.below(if req { 6 } else { 8 }) {
+            0 => "nonce".to_string(),
+            1 => "nonce=open".into(),
+            2 => format!("resign={who}"),
+            3 => format!("expired={}", if req { "proxyA" } else { "signerA" }),
+            4 => {
+                let others = Self::slots_of(w, req);
+                format!("graft={}", self.r.pick(&others))
+            }
+            5 => if req { "drop".into() } else { "dropresp".into() },
+            6 => "num=1".into(),
+            _ => "num=99".into(),
+        };
+        let new_slot = w.slots.len();
+        // deliver the altered message (it is slot `new_slot` if the alteration was possible)
+        self.flips.push(if req { format!("sign A R{new_slot}") } else { format!("resp P{new_slot}") });
+        Some(format!("mut M{s} {how}"))
+    }
+
     fn next_ta(&mut self, w: &World) -> Option<String> {
+        if let Some(f) = self.flips.pop() { return Some(f); }
         if self.step >= self.len { return None; }
         self.step += 1;
         let second = w.id.ends_with("disk") || self.thorough;   // cases that afford a second instance
+        // operator actions that can set the manifest number back: only late in every fourth case
+        let risky = w.id.split('-').nth(1).and_then(|i| i.parse::<usize>().ok()).map(|i| i % 4 == 3).unwrap_or(false)
+            && self.step * 4 > self.len * 3;
+        let open = w.has_open_request();
+        let have_resp = !Self::slots_of(w, false).is_empty();
+        let have_req = !Self::slots_of(w, true).is_empty();
+        let offline = w.offline_names();
         for _ in 0..20 {
             let c = self.r.below(100);
-            let op = match c {
-                0..=11 => Some(format!("sync {} ta", self.r.pick(&["a", "b"]))),
-                12..=19 => {
-                    let child = *self.r.pick(&["a", "b", "a", "b", "zz"]);
-                    let kind = if self.r.chance(3, 4) { "issue" } else { "revoke" };
-                    let key = if self.nkeys > 0 && self.r.chance(1, 2) { format!("k{}", self.r.below(self.nkeys as u64)) }
-                        else { self.nkeys += 1; format!("k{}", self.nkeys - 1) };
-                    let extra = match self.r.below(10) {
-                        0 => " cls=other", 1 => " lim=1", 2 => " lim=9", _ => "" };
-                    Some(format!("tareq {child} {kind} {key}{extra}"))
+            let op: Option<String> = if !open {
+                match c {
+                    0..=44 => Some(self.child_activity()),
+                    45..=59 => Some("mkreq".into()),
+                    60..=66 if have_resp => self.pick_slot(w, false).map(|s| format!("resp P{s}")),   // stale
+                    67..=72 if have_req => self.pick_slot(w, true).map(|s| format!("sign A R{s}")),    // replay at the signer
+                    73..=76 => Some("getreq".into()),
+                    77..=82 => self.adversarial(w, second),
+                    83..=86 => Some("tasync".into()),
+                    87..=89 => Some("pump".into()),
+                    90..=91 => Some("task renewta".into()),
+                    _ => None,
                 }
-                20..=29 => Some("mkreq".into()),
-                30..=36 => Some("getreq".into()),
-                37..=50 => self.pick_slot(w, true).map(|s| {
-                    let ovr = match self.r.below(12) { 0 => " ovr=1", 1 => " ovr=50", _ => "" };
-                    format!("sign A R{s}{ovr}")
-                }),
-                51..=64 => self.pick_slot(w, false).map(|s| format!("resp P{s}")),
-                65..=74 => {
-                    let req = self.r.chance(1, 2);
-                    self.pick_slot(w, req).map(|s| {
-                        let who = *self.r.pick(&["proxyA", "signerA", "rnd", "proxyB", "signerB"]);
-                        let who = if !second && who.ends_with('B') { "rnd" } else { who };
-                        let how = match self.r.below(if req { 6 } else { 8 }) {
-                            0 => "nonce".to_string(),
-                            1 => "nonce=open".into(),
-                            2 => format!("resign={who}"),
-                            3 => format!("expired={}", if req { "proxyA" } else { "signerA" }),
-                            4 => {
-                                let others = Self::slots_of(w, req);
-                                format!("graft={}", self.r.pick(&others))
-                            }
-                            5 => if req { "drop".into() } else { "dropresp".into() },
-                            6 => "num=1".into(),
-                            _ => "num=99".into(),
-                        };
-                        format!("mut M{s} {how}")
-                    })
+            } else {
+                match c {
+                    0..=13 => Some("getreq".into()),
+                    14..=35 if have_req => self.pick_slot(w, true).map(|s| {
+                        let ovr = if self.r.chance(1, 10) { " ovr=500" } else { "" };
+                        format!("sign A R{s}{ovr}")
+                    }),
+                    36..=57 if have_resp => self.pick_slot(w, false).map(|s| format!("resp P{s}")),
+                    58..=72 => self.adversarial(w, second),
+                    73..=87 => Some(self.child_activity()),          // requests while the signer request is open
+                    88..=90 => Some("mkreq".into()),
+                    91..=92 => Some("tasync".into()),
+                    _ => None,
                 }
-                75..=80 if second => Some(match self.r.below(6) {
+            };
+            let op = op.or_else(|| match self.r.below(30) {
+                0..=5 if second => Some(match self.r.below(6) {
                     0 => "mkreq B".to_string(),
                     1 => "getreq B".into(),
                     2 => self.pick_slot(w, true).map(|s| format!("sign B R{s}")).unwrap_or("mkreq B".into()),
@@ -155,27 +199,23 @@ impl Gen {
                     4 => "B: ca a".into(),
                     _ => "B: child ta a 1".into(),
                 }),
-                81..=84 => {
-                    let n = w.slots.len() % 3;
-                    Some(match self.r.below(5) {
-                        0 => format!("reinit X{n} same"),
-                        1 => format!("reinit X{n} same num=40"),
-                        2 => format!("reinit X{n} diff"),
-                        3 => format!("sigupdate X{}", self.r.below(3)),
-                        _ => format!("sigadd X{}", self.r.below(3)),
-                    })
-                }
-                85..=87 => self.pick_slot(w, true).map(|s| format!("sign X{} R{s}", self.r.below(3))),
-                88..=89 => Some("sigupdate A".into()),
-                90..=92 => Some("tasync".into()),
-                93..=94 => Some("pump".into()),
-                95..=96 => Some(format!("rollinit {}", self.r.pick(&["a", "b"]))),
-                97..=98 => Some(format!("rollactivate {}", self.r.pick(&["a", "b"]))),
-                _ => Some("task renewta".into()),
-            };
+                6..=8 => Some(format!("reinit X{} {}", offline.len(), if self.r.chance(1, 3) { "diff" } else { "same num=300" })),
+                9..=11 if !offline.is_empty() && have_req => self.pick_slot(w, true).map(|s| format!("sign {} R{s}", self.r.pick(&offline))),
+                12..=13 if !offline.is_empty() => Some(format!("sigadd {}", self.r.pick(&offline))),
+                14..=15 if !offline.is_empty() && !open => Some(format!("sigupdate {}", self.r.pick(&offline))),
+                16 if !open => Some("sigupdate A".into()),
+                17..=22 if risky => Some(match self.r.below(5) {
+                    0 if have_req => self.pick_slot(w, true).map(|s| format!("sign A R{s} ovr=1")).unwrap_or("mkreq".into()),
+                    1 => format!("reinit X{} same", offline.len()),
+                    2 if !offline.is_empty() => format!("sigupdate {}", self.r.pick(&offline)),
+                    3 => "sigupdate A".into(),
+                    _ => "mkreq".into(),
+                }),
+                _ => None,
+            });
             if let Some(op) = op { return Some(op); }
         }
-        Some("mkreq".into())
+        Some(self.child_activity())
     }
 
     // ---------------------------------------------------------------- C12
